@@ -218,10 +218,32 @@ def r4(cx):
             if g.root[0] == "discr" and g.root[2] and g.root[2].endswith("ActRunAs"):
                 ok = discr_variants(m, g) == {"Msg"}
     cx.ob("C08.R4", "act:run:msg", ok, "Act::run re-enables emission exactly for message acts (their completion message is the only one they yield)", loc)
+    # init mutes by the `run_as` of the package found in the package collection; run must un-mute by the SAME answer: a
+    # second source (an in-process registry that only knows the built-in packages) leaves a client-registered message
+    # package muted for ever - its act completes and the client never gets its message
+    def run_as_source(g_):
+        out = set()
+        for bi, b in enumerate(g_.blocks):
+            t = b["t"]
+            if t[0] != "switch":
+                continue
+            r = pa.root(g_, t[1])
+            if r[0] == "discr" and (r[2] or "").endswith("ActRunAs"):
+                src = r[1]
+                n_ = 0
+                while src[0] == "call" and n_ < 6 and not src[1].startswith("acts::") and Call(g_, src[2]).args:
+                    src = pa.root(g_, Call(g_, src[2]).args[0])
+                    n_ += 1
+                out.add(short_name(src[1]) if src[0] == "call" else root_str(src))
+        return out
+    fi = m.one(r"act::<impl acts::scheduler::ActTask for acts::model::act::Act>::init$")
+    si, sr_ = run_as_source(fi), run_as_source(f)
+    cx.ob("C08.R4", "act:run:same-run_as", bool(si) and si == sr_,
+          "Act::run decides how the act runs from the same `run_as` Act::init muted it by (init: %s, run: %s)" % (sorted(si), sorted(sr_)), loc)
     # the three ways an act runs are all decided (merged or separate arms alike)
     if covered != {"Irq", "Msg", "Func"}:
         cx.undecide("C08.R4", "Act::init: the first state of an act run as %s was not found" % sorted({"Irq", "Msg", "Func"} - covered))
-    cx.floor("C08.R4", 4)
+    cx.floor("C08.R4", 5)
 
 
 def _is_normal_return(f, r):
